@@ -1179,7 +1179,15 @@ class C31(WorldCheck):
                              f"changed the model's inputs/outputs", 'ctx': kind})
                 return False
         if sim.p is not None and sim.final:
-            mlog.append((kind, sim.state_bytes()))
+            if memoryless:
+                mlog.append((kind, sim.state_bytes()))
+            else:
+                # solvers with memory (Broyden's inverse jacobian, Aitken's relaxation factor) carry the
+                # points visited by earlier solves -- including the RANDOM direction of a directional
+                # check_totals/check_partials, drawn from the global RNG -- into later solves: their converged
+                # states agree to solver tolerance, not bitwise
+                m_ = sim.p.model
+                mlog.append(('SV', [(kind, np.concatenate([m_._inputs.asarray(), m_._outputs.asarray()]))]))
         if kind == 'totals' and res is not None:
             mlog.append(('T', [(k, v) for k, v in sorted(res.items())]))
         if kind == 'jacvec' and res is not None:
@@ -1244,10 +1252,12 @@ class C31(WorldCheck):
         def same(x, y, sim):
             if x[0] != y[0]:
                 return False
-            if x[0] in ('T', 'JV'):
+            if x[0] in ('T', 'JV', 'SV'):
                 # derivative results of iterative linear solvers depend on the linear vectors' previous
                 # content (their initial guess) within the solver tolerance; direct stacks must be bitwise
-                iterative = any(s_['ln'] in ('lnbgs', 'lnbj', 'krylov') for s_ in sim.world['solvers'].values())
+                iterative = x[0] == 'SV' or any(
+                    s_['ln'].split('_')[0] in ('lnbgs', 'lnbj', 'krylov') or s_['nl'] == 'broyden' or
+                    (s_['nl'] == 'nlbgs' and s_.get('aitken')) for s_ in sim.world['solvers'].values())
                 if len(x[1]) != len(y[1]):
                     return False
                 for (k1, v1), (k2, v2) in zip(x[1], y[1]):
